@@ -334,6 +334,7 @@ theorem memObs_closed (o : Obs) : Closed (fun e : Eff => o ∈ e.ps.obs) where
   hookLate := fun e pid hook h => h
   hookEarly := fun e id hook h => h
   level := fun e l h => h
+  hops := fun e l h => h
   obs := fun e o' ho h => List.mem_cons_of_mem _ h
 
 /-- a started process with code left that is advanced at clock `now` logs `resume now pid send tag` -/
